@@ -82,7 +82,7 @@ def replay(verdict, exe, res, seed=0, tag="lex", sigprefix="lex", vary=True):
         line = pl[0]
         probs = []
         if line["out"] != g["begin"]["out"] or pl[1]["out"] != g["begin"]["out"]:
-            probs.append(("stdout", "%d byte(s) written to standard output" % max(line["out"], pl[1]["out"]) - g["begin"]["out"]))
+            probs.append(("stdout", "%d byte(s) written to standard output" % (max(line["out"], pl[1]["out"]) - g["begin"]["out"])))
         st = b["status"]
         if st != "unspec":
             want = 0 if st == "ok" else 1
